@@ -33,6 +33,9 @@ def main(out):
   import mujoco
 
   res["mujoco_version"] = mujoco.__version__
+  res["mujoco_consts"] = {
+    n: getattr(mujoco, n) for n in dir(mujoco) if n.startswith("mj") and isinstance(getattr(mujoco, n), (int, float)) and not isinstance(getattr(mujoco, n), bool)
+  }
   import warp
 
   res["warp_version"] = warp.__version__
